@@ -290,6 +290,39 @@ func syncOnlyFrom(fn, root *ssa.Function, shipped []*ssa.Function, depth int) (b
 	return true, ""
 }
 
+// checkLockRelease: every Lock / RLock taken in one of the functions is
+// released on every path to the function's exit (by an Unlock / RUnlock call or
+// a deferred one). A lock that stays held blocks every later user of the mutex
+// for ever.
+func (c *Ctx) checkLockRelease(rule string, fns []*ssa.Function, consequence string) int {
+	n := 0
+	for _, f := range fns {
+		for _, ci := range an.Calls(f) {
+			k, mu := an.LockOp(ci.Common())
+			if (k != "Lock" && k != "RLock") || !isCall(ci) {
+				continue
+			}
+			n++
+			mp := an.MutexPath(mu)
+			want := "Unlock"
+			if k == "RLock" {
+				want = "RUnlock"
+			}
+			unlock := func(in ssa.Instruction) bool {
+				c2, ok := in.(ssa.CallInstruction)
+				if !ok {
+					return false
+				}
+				k2, m2 := an.LockOp(c2.Common())
+				return k2 == want && an.MutexPath(m2) == mp && !isGo(c2)
+			}
+			w := an.Search(an.After(ci), an.IsReturn, unlock)
+			c.R.Check(w == nil, rule, fname(f)+": "+k+" of "+mp+" released on every path", c.pos(ci), "every path from the "+k+" to a return passes "+want+" (or its defer)", mp+" is not released on some path: "+consequence)
+		}
+	}
+	return n
+}
+
 func isStatic(pkg, name string) func(*ssa.CallCommon) bool {
 	return func(c *ssa.CallCommon) bool { return an.CalleeIs(c, pkg, name) }
 }
